@@ -10,6 +10,7 @@ of sized / unsized reads and seek(0).
 import io
 import os
 from boltons import ioutils
+from vf import rt
 from vf.rt import internal, cz, pin, pinval, assume, fail, done, notrace
 from vf.check import Ob
 
@@ -23,7 +24,7 @@ TARGETS = ['boltons.ioutils.SpooledBytesIO.write', 'boltons.ioutils.SpooledBytes
            'boltons.ioutils.SpooledIOBase.__next__', 'boltons.ioutils.SpooledIOBase.__len__', 'boltons.ioutils.MultiFileReader.read',
            'boltons.ioutils.MultiFileReader.seek', 'boltons.ioutils.MultiFileReader.__init__']
 BOUNDS = {
-    'quick': {'script': 'preset content + 2 solver-chosen operations from write/read(n)/read()/readline/readline(n)/readlines/iterate/seek(p)/seek-to-end/tell/getvalue/len',
+    'quick': {'multi_long': 'three fixed members, every script of 4 calls', 'script': 'preset content + 2 solver-chosen operations from write/read(n)/read()/readline/readline(n)/readlines/iterate/seek(p)/seek-to-end/tell/getvalue/len',
               'max_size': 'every value 1..len(data)+3 and never-rolling', 'chunks': 'classes ASCII, 2-, 3-, 4-byte, LF, CR, CRLF',
               'multifile': 'content <= 5 items, <= 3 member files (empty members allowed), 3 operations'},
     'thorough': {'script': '3 operations'},
@@ -203,6 +204,25 @@ def multi_law(n: int, k0: int, k1: int, k2: int, k3: int, k4: int, c1: int, c2: 
         return _multi_body(bool(text), classes, c1, c2, script)
 
 
+def multi_long_law(o1: int, o2: int, o3: int, o4: int, o5: int) -> bool:
+    """
+    pre: True
+    post: _
+    """
+    # longer scripts over three fixed member files (two layouts, a multi-byte item in text mode):
+    # sequences like read(2), read(3), read(), seek(0), read() need four or five calls
+    text = pinval('text', 0)
+    script = [MOPS[cz(o, 0, len(MOPS) - 1)] for o in [o1, o2, o3, o4, o5][:pinval('nops', 4)]]
+    with notrace():
+        # two layouts: members of 1, 2 and 1 characters (short reads cross member boundaries quickly) and of 3, 3, 3
+        snap = (rt.STATE['paths'], rt.STATE['witness'], dict(rt.STATE['witness_kinds']), list(rt.STATE['samples']))
+        r = _multi_body(bool(text), [0, 4, 1 if text else 0], 1, 2, script)
+        if r is not True:
+            return r
+        rt.STATE['paths'], rt.STATE['witness'], rt.STATE['witness_kinds'], rt.STATE['samples'] = snap     # one path, not two
+        return _multi_body(bool(text), [0, 4, 1 if text else 0, 4, 0, 4], 2, 4, script)
+
+
 def obligations(tier):
     obs = []
     q = tier == 'quick'
@@ -213,6 +233,7 @@ def obligations(tier):
                 obs.append(Ob('spool_law', timeout=T, pins={'text': text, 'preset': preset, 'nops': 2 if q else 3, 'op1': op1},
                               need_kinds=('rolled',)))
         obs.append(Ob('spool_law', timeout=T, pins={'text': text, 'preset': 0, 'nops': 2 if q else 3}, need_kinds=('rolled',)))
+        obs.append(Ob('multi_long_law', timeout=T, pins={'text': text, 'nops': 4 if q else 5}))
         for op1 in range(len(MOPS)):
             obs.append(Ob('multi_law', timeout=T if q else 2700, pins={'text': text, 'nmax': 3 if q else 4, 'nops': 2 if q else 3, 'op1': op1}, need_kinds=('empty_member', 'full')))
     return obs
